@@ -972,3 +972,84 @@ def remote_listing_independent_of_local(ctx: Ctx, rep: Report, rid: str):
         p_ = g.reach([h.id], lambda n: n in rem, follow=NORMAL)
         rep.check(rid, "smart_listdir_path|remote-after-local-failure", ctx.line(f, h.ast), p_ is not None, "the remote listing is reached from the not-found handler",
                   "when the local folder does not exist the remote half of the listing is skipped too: files that exist only in the cloud disappear from the merged listing")
+
+
+def resolution_bookkeeping(ctx: Ctx, rep: Report, rid: str):
+    """resolve_conflict, one side picked: keep -> the loser's entry is flagged CONFLICT and its winner-side half cleared (a stale change recorded on that half
+    must never act on the .conflicted copy), the winner's own sync markers are reset so that it is sent over; not keep -> the winner half is grafted onto the
+    loser's entry, the emptied entry discarded and all four sync markers set (both sides hold the winner's content now)."""
+    f = ctx.prog.func("SyncManager.resolve_conflict")
+    g = ctx.cfg(f)
+    keep = local_assigned_from(ctx, f, "self.__safe_call_resolver($$$)", 1)
+    defs = {}
+    for n in ctx.own_nodes(f):
+        if isinstance(n, ast.Assign) and isinstance(n.targets[0], ast.Name):
+            defs.setdefault(n.targets[0].id, []).append(n.value)
+    rs = [k for k, v in defs.items() if any(pat.match("OTHER_SIDE[$D]", x) is not None for x in v)]
+    if keep is None or len(rs) != 1:
+        raise AnalysisError("resolve_conflict: keep / replace side not identified")
+    rside = rs[0]
+    dside = ast.unparse(pat.match("OTHER_SIDE[$D]", defs[rside][0])["D"])
+    rent = [k for k, v in defs.items() if any(pat.match("self.state.lookup_oid(%s, $O)" % rside, x) is not None for x in v)]
+    dent = [k for k, v in defs.items() if any(pat.match("self.state.lookup_oid(%s, $O)" % dside, x) is not None for x in v)]
+    if len(rent) != 1 or len(dent) != 1:
+        raise AnalysisError("resolve_conflict: loser / winner entries not identified")
+    R, D = rent[0], dent[0]
+    tests = [n for n in g.nodes if n.kind == "test" and pat.match(keep, n.ast) is not None and fact_in(ctx.facts(f).facts(n), "%s is None" % dside, False)]
+    if not tests:
+        raise AnalysisError("resolve_conflict: `if keep:` of the one-side-picked arm not found")
+    t = tests[0]
+    joins = [n for n in g.nodes if node_has_call(n, "log.info('RESOLVED CONFLICT: %s side: %s', $$$)")] or [g.exit]
+
+    def must(edge, what, pred, cond_tests=()):
+        starts = [b for (b, l) in g.succ[t.id] if l == edge]
+        skip = set(cond_tests)
+        p_ = g.reach(starts, lambda n: n in joins or n is g.exit, avoid=pred, follow=lambda a, b, l: l != "exc" and (a, l) not in skip, include_src=True)
+        rep.check(rid, "resolve_conflict|%s|%s" % ("keep" if edge == "T" else "merge", what), ctx.line(f, t.ast), p_ is None, what,
+                  "resolve_conflict (%s arm) can finish without `%s`: %s" % ("keep" if edge == "T" else "not keep", what,
+                  "the .conflicted copy keeps a stale half that a later event acts on (the kept version is deleted / overwritten), or the winner is never sent over" if edge == "T"
+                  else "the two sides are not booked as holding the winner's content: duplicate entries / the resolution is re-done or echoed"), witness=describe_path(p_) if p_ else None)
+    a_ = lambda patt: (lambda n: cfg_root(n) is not None and isinstance(cfg_root(n), ast.Assign) and pat.match(patt, cfg_root(n)) is not None)   # noqa: E731
+    rtests = {(n.id, "F") for n in g.nodes if n.kind == "test" and pat.match(R, n.ast) is not None}
+    must("T", "%s.ignore(IgnoreReason.CONFLICT)" % R, lambda n: node_has_call(n, "%s.ignore(IgnoreReason.CONFLICT)" % R), rtests)
+    must("T", "%s[%s].clear()" % (R, dside), lambda n: node_has_call(n, "%s[%s].clear()" % (R, dside)), rtests)
+    must("T", "%s[%s].sync_path = None" % (D, dside), a_("%s[%s].sync_path = None" % (D, dside)))
+    must("T", "%s[%s].sync_hash = None" % (D, dside), a_("%s[%s].sync_hash = None" % (D, dside)))
+    must("F", "%s[%s] = %s[%s]" % (R, dside, D, dside), a_("%s[%s] = %s[%s]" % (R, dside, D, dside)))
+    must("F", "%s.ignore(IgnoreReason.DISCARDED)" % D, lambda n: node_has_call(n, "%s.ignore(IgnoreReason.DISCARDED)" % D))
+    must("F", "%s[%s].sync_path = %s[%s].path" % (R, rside, R, rside), a_("%s[%s].sync_path = %s[%s].path" % (R, rside, R, rside)))
+    must("F", "%s[%s].sync_hash = %s[%s].hash" % (R, rside, R, rside), a_("%s[%s].sync_hash = %s[%s].hash" % (R, rside, R, rside)))
+    must("F", "%s[%s].sync_hash = %s[%s].hash" % (R, dside, R, dside), a_("%s[%s].sync_hash = %s[%s].hash" % (R, dside, R, dside)))
+    must("F", "%s[%s].sync_path = translate(...)" % (R, dside), a_("%s[%s].sync_path = self.translate(%s, %s[%s].path)" % (R, dside, dside, R, rside)))
+
+
+def content_first_deferral(ctx: Ctx, rep: Report, rid: str):
+    """sync(): a side whose own content is unchanged yields to the other side whenever that side has a pending CONTENT change - under no further
+    condition.  (This is what makes 'edit wins over a concurrent move-out / rename': the edit is transferred before the path change is acted on.)"""
+    from sa.util import extra_facts
+    f = ctx.prog.func("SyncManager.sync")
+    g = ctx.cfg(f)
+    sy = f.params()[1]
+    loops = [n for n in g.nodes if n.kind == "iter" and isinstance(n.ast.target, ast.Name)]
+    if not loops:
+        raise AnalysisError("SyncManager.sync: side loop not found")
+    sv = loops[0].ast.target.id
+    found = 0
+    for n in g.nodes:
+        if n.kind == "stmt" and isinstance(n.ast, ast.Continue):
+            facts = ctx.facts(f).facts(n)
+            oth = [m["O"] for m in [pat.match("%s[$O].hash == %s[$O].sync_hash" % (sy, sy), ast.parse(t, mode="eval").body) for (t, p) in facts if not p and ".sync_hash" in t] if m is not None]
+            if not oth or not any(pol and pat.match("%s[$O].changed" % sy, ast.parse(t, mode="eval").body) is not None for (t, pol) in facts):
+                continue
+            found += 1
+            o = ast.unparse(oth[0])
+            allowed = [("%s.hash_conflict()" % sy, False), ("%s[%s].hash == %s[%s].sync_hash" % (sy, sv, sy, sv), True), ("%s[%s].changed" % (sy, o), True),
+                       ("%s[%s].hash == %s[%s].sync_hash" % (sy, o, sy, o), False), ("%s[%s].needs_sync()" % (sy, sv), True)]
+            atomic = [(t, p) for (t, p) in facts if not isinstance(ast.parse(t, mode="eval").body, ast.BoolOp)]
+            extra = extra_facts(atomic, allowed)
+            rep.check(rid, "sync|content-first", ctx.line(f, n.ast), not extra and fact_in(facts, "%s[%s].hash == %s[%s].sync_hash" % (sy, sv, sy, sv), True),
+                      "deferral to the other side's pending content change is unconditional",
+                      "the deferral to a pending content change of the other side is taken only under the extra condition(s) %s: a path change (rename, move out of the root) of "
+                      "this side is acted on first - for a move-out that deletes the peer copy holding the only version of the newer edit" % extra)
+    if found == 0:
+        rep.violation(rid, "sync|content-first", f, "sync() no longer defers to the other side's pending content change when this side's content is unchanged")
